@@ -33,24 +33,43 @@ fn session_cfg(p: &Proto, b: Backend, eph_tag: u8) -> Config {
 }
 
 /// transport messages of a parallel session (same static keys, other ephemerals): one per direction
-fn foreign_messages(p: &Proto, b: Backend, plen: usize) -> Vec<Vec<u8>> {
+fn rekey_all() -> Vec<Op> {
+    vec![Op::RekeyOut { side: Side::I }, Op::RekeyIn { side: Side::I }, Op::RekeyOut { side: Side::R }, Op::RekeyIn { side: Side::R }]
+}
+
+/// (messages before any rekey, messages after both directions were rekeyed on both sides), one per direction, nonce 0 / 1
+fn foreign_messages(p: &Proto, b: Backend, plen: usize) -> (Vec<Vec<u8>>, Vec<Vec<u8>>) {
     let cfg = session_cfg(p, b, 40);
     let mut ops = sess::handshake_ops(p, &[0, 0, 0, 0]);
     ops.extend(sess::convert_ops(Mode::TT));
-    ops.push(Op::TWrite { side: Side::I, plen, cap: Cap::Roomy });
-    if !p.pattern.is_oneway() {
-        ops.push(Op::TWrite { side: Side::R, plen, cap: Cap::Roomy });
-    }
+    let oneway = p.pattern.is_oneway();
+    let push_writes = |ops: &mut Vec<Op>| {
+        ops.push(Op::TWrite { side: Side::I, plen, cap: Cap::Roomy });
+        if !oneway {
+            ops.push(Op::TWrite { side: Side::R, plen, cap: Cap::Roomy });
+        }
+    };
+    push_writes(&mut ops);
+    ops.extend(rekey_all());
+    push_writes(&mut ops);
     let e = Exec::run(&cfg, &ops);
-    let mut v = vec![];
-    for s in [Side::I, Side::R] {
-        if let Some(w) = e.wires[s.idx()].last() {
-            if matches!(w.meta, crate::exec::WireMeta::T { .. }) {
-                v.push(w.bytes.clone());
+    let per = if oneway { 1 } else { 2 };
+    let all: Vec<Vec<u8>> = {
+        // in write order: I (, R), I (, R)
+        let ti: Vec<Vec<u8>> = e.wires[0].iter().filter(|w| matches!(w.meta, crate::exec::WireMeta::T { .. })).map(|w| w.bytes.clone()).collect();
+        let tr: Vec<Vec<u8>> = e.wires[1].iter().filter(|w| matches!(w.meta, crate::exec::WireMeta::T { .. })).map(|w| w.bytes.clone()).collect();
+        let mut v = vec![];
+        for k in 0..2 {
+            if let Some(m) = ti.get(k) {
+                v.push(m.clone());
+            }
+            if let Some(m) = tr.get(k) {
+                v.push(m.clone());
             }
         }
-    }
-    v
+        v
+    };
+    (all.iter().take(per).cloned().collect(), all.iter().skip(per).cloned().collect())
 }
 
 fn ops_for(p: &Proto, b: Backend, stateless: bool, plen: usize, bit_stride: usize) -> Vec<Op> {
@@ -58,7 +77,7 @@ fn ops_for(p: &Proto, b: Backend, stateless: bool, plen: usize, bit_stride: usiz
     let mode = if stateless { Mode::SS } else { Mode::TT };
     let mut ops = sess::handshake_ops(p, &[0, 0, 0, 0]);
     ops.extend(sess::convert_ops(mode));
-    let foreign = foreign_messages(p, b, plen);
+    let (foreign, foreign_rekeyed) = foreign_messages(p, b, plen);
     for w in [Side::I, Side::R] {
         if oneway && w == Side::R {
             continue;
@@ -107,6 +126,46 @@ fn ops_for(p: &Proto, b: Backend, stateless: bool, plen: usize, bit_stride: usiz
         if !stateless {
             // and exactly once
             ops.push(rd(r, 0, g.clone()));
+        }
+    }
+    // after a synchronised rekey of both directions on both sides the same must hold: the keys are still
+    // session- and direction-specific
+    ops.extend(rekey_all());
+    for w in [Side::I, Side::R] {
+        if oneway && w == Side::R {
+            continue;
+        }
+        let r = w.peer();
+        let n1 = 1u64; // second message of this direction
+        ops.push(if stateless { Op::SWrite { side: w, nonce: n1, plen, cap: Cap::Roomy } } else { Op::TWrite { side: w, plen, cap: Cap::Roomy } });
+        let rd = |side: Side, m: Msg| if stateless { Op::SRead { side, nonce: n1, msg: m, cap: Cap::Roomy } } else { Op::TRead { side, msg: m, cap: Cap::Roomy } };
+        let g = Msg::Last(w);
+        for f in &foreign_rekeyed {
+            ops.push(rd(r, Msg::Raw(f.clone())));
+        }
+        ops.push(rd(r, Msg::Altered(Box::new(g.clone()), Alter::FlipLast)));
+        if !oneway && !stateless {
+            // reflection: the writer's own receiving nonce must be in step for this to be a fair test
+            ops.push(Op::SetRecvNonce { side: w, n: n1 });
+            ops.push(rd(w, g.clone()));
+            ops.push(Op::SetRecvNonce { side: w, n: if w == Side::I { 0 } else { 1 } });
+        } else if !oneway {
+            ops.push(rd(w, g.clone()));
+        }
+        ops.push(rd(r, g.clone()));
+    }
+    // the last usable nonce: a message under 2^64-2 is accepted once and never again
+    if !stateless {
+        for w in [Side::I, Side::R] {
+            if oneway && w == Side::R {
+                continue;
+            }
+            let r = w.peer();
+            ops.push(Op::SetSendNonce { side: w, n: u64::MAX - 1 });
+            ops.push(Op::TWrite { side: w, plen, cap: Cap::Roomy });
+            ops.push(Op::SetRecvNonce { side: r, n: u64::MAX - 1 });
+            ops.push(Op::TRead { side: r, msg: Msg::Last(w), cap: Cap::Roomy });
+            ops.push(Op::TRead { side: r, msg: Msg::Last(w), cap: Cap::Roomy });
         }
     }
     ops
